@@ -93,12 +93,16 @@ def check_case(rec, spec, site, kind, iterative, steps):
     spec_ref['arrays'] = [dict(a) for a in arrays]
     array_site = models.feature_of(spec, F) == 'array-member'
     if array_site:
-        arr = next(a for a in spec_f['arrays'] if a['sheet'] == sheet)
+        def holds(a):
+            first, last = a['ref'].split(':')
+            return a['sheet'] == sheet and \
+                first[0] <= coord[0] <= last[0] and \
+                int(first[1:]) <= int(coord[1:]) <= int(last[1:])
+        arr = next(a for a in spec_f['arrays'] if holds(a))
         faulty, ref = wrap(arr['formula'], kind)
         arr['formula'] = faulty
         if ref is not None:
-            next(a for a in spec_ref['arrays']
-                 if a['sheet'] == sheet)['formula'] = ref
+            next(a for a in spec_ref['arrays'] if holds(a))['formula'] = ref
         first, last = arr['ref'].split(':')
         members = [f'{sheet}!{chr(c)}{r}'
                    for r in range(int(first[1:]), int(last[1:]) + 1)
